@@ -180,7 +180,8 @@ class AstAnalyzer:
                 curr = live_out
                 while curr != prev:
                     prev = curr
-                    curr = visit_block(stmt.body, prev).difference({p_loop_var})
+                    # The loop may run zero times: everything live after it is live before it.
+                    curr = visit_block(stmt.body, prev).difference({p_loop_var}) | live_out
                 return curr
             if isinstance(stmt, ast.While):
                 cond_vars = _used_vars(stmt.test)
@@ -188,7 +189,7 @@ class AstAnalyzer:
                 curr = live_out | cond_vars
                 while curr != prev:
                     prev = curr
-                    curr = visit_block(stmt.body, prev) | cond_vars
+                    curr = visit_block(stmt.body, prev) | cond_vars | live_out
                 return curr
             if isinstance(stmt, ast.Break):
                 # The following is sufficient for the current restricted usage, where
